@@ -51,7 +51,7 @@ func GenActs(rt *rapid.T, n, reorder int, withTx bool) []Act {
 
 // ObsOracles selects the oracles armed on the observed node.
 type ObsOracles struct {
-	C10, C11, C12, C23, C14 bool
+	C10, C11, C12, C23, C14, C15 bool
 }
 
 // Observer is a node that receives the produced tree in a drawn order.
@@ -202,6 +202,12 @@ func (o *Observer) Deliver(h bc.Hash, dup bool) {
 	} else if err != nil && o.Or.C12 {
 		r.Violate("valid-block-rejected", "", "valid block %s (height %d) rejected by the observed node: %v", w.name(h), w.Blocks[h].Height, err)
 		return
+	} else if err != nil && o.Or.C14 && w.Blocks[h].Height%w.P.E == 1 && w.Blocks[h].Height > 1 {
+		// the first block of an epoch pays the previous epoch's rewards: the reference ledger accepted
+		// exactly these outputs (the block is in the tree), the node refuses them
+		r.Violate("reward-block-rejected", "", "block %s (height %d, first of its epoch, pays %d reward outputs the reference ledger accepts) rejected by the observed node: %v",
+			w.name(h), w.Blocks[h].Height, len(w.Blocks[h].Transactions[0].Outputs), err)
+		return
 	} else if err != nil {
 		r.Count("contained.block_rejected", 1)
 	}
@@ -209,6 +215,45 @@ func (o *Observer) Deliver(h bc.Hash, dup bool) {
 		r.Count("probe.orphan", 1)
 	}
 	o.CheckAll("deliver " + w.name(h))
+}
+
+// checkSchedule queries the node's proposer schedule for children of the best block and of the last
+// epoch-end blocks it has stored (on any branch) over one rotation round, and compares with the model.
+func (o *Observer) checkSchedule(ctx string, bst *model.BlockState) {
+	w, r, n := o.W, o.W.R, o.N
+	targets := []*model.BlockState{bst}
+	cnt := 0
+	for i := len(w.Order) - 1; i > 0 && cnt < 3; i-- {
+		h := w.Order[i]
+		s := w.Tree.Nodes[h]
+		if s.Height%w.P.E != 0 || !o.Delivered[h] || s.Invalid != nil {
+			continue
+		}
+		if _, err := n.Store.GetBlockHeader(&h); err != nil {
+			continue
+		}
+		targets = append(targets, s)
+		cnt++
+	}
+	for _, s := range targets {
+		nv := len(w.Tree.EffectiveValidators(w.Tree.CheckpointOf(s).Votes))
+		h := s.Hash
+		for k := 0; k < nv+1; k++ {
+			qt := w.Blocks[h].Timestamp + w.P.IntervalMs*uint64(1+k)
+			want, ok := w.Tree.ScheduledValidator(s, qt)
+			got, err := n.Chain.GetValidator(&h, qt)
+			r.Count("probe.schedule_queries_observer", 1)
+			if err != nil || got == nil || !ok || got.PubKey != want.PubKey {
+				gp := "none"
+				if got != nil {
+					gp = got.PubKey[:16]
+				}
+				r.Violate("schedule", "observer", "after %s: for a child of %s (height %d) at t=parent+%dms the observed node schedules %s…, the reference schedule says %.16s… (validators in the epoch: %d, err=%v)",
+					ctx, w.name(h), s.Height, qt-w.Blocks[h].Timestamp, gp, want.PubKey, nv, err)
+				return
+			}
+		}
+	}
 }
 
 // belowFinalized reports whether block h does not descend from the node's
@@ -255,6 +300,14 @@ func (o *Observer) CheckAll(ctx string) {
 			}
 		}
 		o.lastBest = best
+	}
+	// ---- C15: the long-lived node's schedule (its in-memory caches have seen every branch) equals
+	// the reference schedule for children of its best block and of the recent epoch-end blocks
+	if o.Or.C15 {
+		o.checkSchedule(ctx, bst)
+		if r.Failed() {
+			return
+		}
 	}
 	// ---- C12: everything whose ancestors arrived is stored, nothing else is
 	if o.Or.C12 {
